@@ -174,7 +174,7 @@ def parse_rvalue(s):
     if m and m.group(1) == "CopyForDeref":
         return ("copyderef", parse_place(m.group(2)))
     if s.startswith("&raw "):
-        return ("rawptr", parse_place(re.sub(r"^&raw (const|mut) ", "", s)))
+        return ("rawptr", parse_place(re.sub(r"^&raw (const|mut) (\(fake\) )?", "", s)))
     if s.startswith("&mut "):
         return ("ref", True, parse_place(s[5:]))
     if s.startswith("&fake "):
